@@ -32,7 +32,11 @@ NewState(paths, nb) ==
      ret  |-> 0,
      nid  |-> 100,           \* next fresh line token
      now  |-> 1,             \* stamps: every write and every external touch takes a larger one
-     lost |-> FALSE]         \* ghost: text that differed from its file was discarded without force
+     lost |-> FALSE,         \* ghost: text that differed from its file was discarded without force
+     args |-> <<>>, apos |-> 0]    \* the argument list of the command line and the position in it (0-based), for :n and :prev
+
+(* the editor started with file arguments: the first is the initial buffer's path (none of the files exists yet) *)
+WithArgs(st, args) == IF args = <<>> THEN st ELSE [st EXCEPT !.args = args, !.tab[1].path = args[1]]
 
 Cur(st) == st.tab[1]
 Dirty(b) == Lb!Dirty(b.lb)
@@ -109,6 +113,13 @@ Edit(st0, path, force, ew) ==
             IN [s1 EXCEPT !.tab[1].lb = lb2, !.tab[1].mtime = IF f.ex THEN f.mt ELSE -1,
                           !.tab[1].synced = lb2.lines,
                           !.row = Max2(0, Min2(s1.row, n - 1)), !.ret = 0, !.msg = IF f.ex THEN "read" ELSE ""]
+
+(* ec_next / ec_prev (ex_next): :e of the neighbouring argument; the position moves only when that succeeded *)
+ArgNext(st, dis) ==
+    LET idx == IF st.apos < Len(st.args) THEN st.apos + dis ELSE -1
+    IN IF idx < 0 \/ idx >= Len(st.args) THEN [st EXCEPT !.ret = 1, !.msg = "nofile"]
+       ELSE LET s1 == Edit(st, st.args[idx + 1], FALSE, FALSE) IN
+            IF s1.ret # 0 THEN s1 ELSE [s1 EXCEPT !.apos = idx]
 
 (* ec_write: lines [beg, end) of the current buffer to path ("" = its own); whole = no range given *)
 Write(st, path0, whole, beg0, end0, force, xonly, fault) ==
@@ -216,6 +227,7 @@ Step(st, c) ==
                 [] c.k = "wp"    -> [s0 EXCEPT !.ret = 0, !.msg = "written"]
                 [] c.k \in {"q", "wq", "x", "xa"} -> Quit(s0, c.k, c.force, c.fault)
                 [] c.k = "b"     -> Buffer(s0, c.how, c.n, c.force)
+                [] c.k = "n"     -> ArgNext(s0, c.dis)
                 [] c.k = "a"     -> EdAppend(s0, c.n)
                 [] c.k = "d"     -> EdDelete(s0)
                 [] c.k = "u"     -> EdUndo(s0)
